@@ -36,8 +36,11 @@ Path(b, ss) == [base |-> b, sels |-> ss]
 
 (* The three coercions of DESIGN.md 3.1 on the model's value universe        *)
 (* (integers; strings that are not numeric)                                  *)
+\* the model's numeric strings (every other string of the models is not numeric: 0)
+NumOfStr(s) == CASE s = "0" -> 0 [] s = "1" -> 1 [] s = "2" -> 2 [] s = "7" -> 7 [] s = "10" -> 10 [] OTHER -> 0
 NumOf(v) == CASE v.t = "num" -> v.n
               [] v.t = "bool" -> IF v.b THEN 1 ELSE 0
+              [] v.t = "str" -> NumOfStr(v.s)
               [] OTHER -> 0
 StrOf(v) == CASE v.t = "str" -> v.s
               [] v.t = "num" -> ToString(v.n)
@@ -56,7 +59,7 @@ ObjC(m)     == [k |-> "object", m |-> m]
 EmptyMap    == [x \in {} |-> Null]
 Alloc(st, c) == [st EXCEPT !.heap = Append(@, c)]     \* the new id is Len(heap)
 Norm(n, i)  == IF i < 0 THEN n + i ELSE i             \* negative indices count from the end
-Pad(items, n) == items \o [i \in 1..(n - Len(items)) |-> Null]
+Pad(items, n) == IF n <= Len(items) THEN items ELSE items \o [i \in 1..(n - Len(items)) |-> Null]
 Fail(st, why) == [st |-> st, val |-> Null, status |-> why]   \* why: "error" (runtime error) | "open" (statement silent)
 
 (* One step of a read.  Result: a Value, Missing, or [t |-> "error"/"open"]. *)
@@ -167,7 +170,7 @@ ListSet(h, id, i, v) ==
 CmpEq(a, b) ==
   CASE a.t = "null" /\ b.t = "null" -> [ok |-> TRUE, eq |-> TRUE]
     [] a.t = "null" \/ b.t = "null" -> [ok |-> TRUE, eq |-> FALSE]
-    [] IsCont(a) \/ IsCont(b) -> [ok |-> FALSE, eq |-> FALSE]
+    [] IsCont(a) \/ IsCont(b) \/ a.t = "wild" \/ b.t = "wild" -> [ok |-> FALSE, eq |-> FALSE]
     [] a.t = "str" /\ b.t = "str" -> [ok |-> TRUE, eq |-> a.s = b.s]
     [] OTHER -> [ok |-> TRUE, eq |-> NumOf(a) = NumOf(b)]
 \* contains(v): == against each element in order; true at the first equal one;
@@ -181,8 +184,13 @@ ListContains(h, id, v) ==
   LET c == ContainsFrom(Items(h, id), 1, v) IN IF c.ok THEN LRes(h, Bool(c.eq)) ELSE LFail(h, "error")
 
 \* sort: a fresh array, stably sorted; numerically if every element is a
-\* number, otherwise by string form.  rk maps a string to its rank in the
-\* bytewise order (given by the MC module for its string universe).
+\* number, otherwise by string form in bytewise order.  StrRank maps a string
+\* of at most 4 characters over "-0123456789abs" to an integer, monotonically.
+CharCode(c) == CASE c = "-" -> 1 [] c = "0" -> 2 [] c = "1" -> 3 [] c = "2" -> 4 [] c = "3" -> 5 [] c = "4" -> 6
+                 [] c = "5" -> 7 [] c = "6" -> 8 [] c = "7" -> 9 [] c = "8" -> 10 [] c = "9" -> 11
+                 [] c = "a" -> 12 [] c = "b" -> 13 [] c = "s" -> 14
+StrRank(s) == LET c(i) == IF i <= Len(s) THEN CharCode(SubSeq(s, i, i)) ELSE 0
+              IN c(1) * 4096 + c(2) * 256 + c(3) * 16 + c(4)
 AllNums(s) == \A i \in 1..Len(s) : s[i].t = "num"
 RECURSIVE InsertByKey(_, _)
 \* s: sorted sequence of [v, key]; insert x after every element with key <= x.key
@@ -192,15 +200,113 @@ InsertByKey(s, x) ==
   ELSE <<x>> \o s
 RECURSIVE SortByKey(_)
 SortByKey(s) == IF s = <<>> THEN <<>> ELSE InsertByKey(SortByKey(SubSeq(s, 1, Len(s) - 1)), s[Len(s)])
-SortKey(s, rk) == IF AllNums(s) THEN [i \in 1..Len(s) |-> s[i].n] ELSE [i \in 1..Len(s) |-> rk[StrOf(s[i])]]
-ListSortItems(s, rk) ==
-  LET keys == SortKey(s, rk)
+SortKey(s) == IF AllNums(s) THEN [i \in 1..Len(s) |-> s[i].n] ELSE [i \in 1..Len(s) |-> StrRank(StrOf(s[i]))]
+ListSortItems(s) ==
+  LET keys == SortKey(s)
       sorted == SortByKey([i \in 1..Len(s) |-> [v |-> s[i], key |-> keys[i]]])
   IN [i \in 1..Len(s) |-> sorted[i].v]
-ListSort(h, id, rk) ==
+ListSort(h, id) ==
   LET s == Items(h, id) IN
   IF \E i \in 1..Len(s) : IsCont(s[i]) THEN LFail(h, "open")     \* string form of a container: not fixed
-  ELSE LET h1 == Append(h, ArrC(ListSortItems(s, rk))) IN LRes(h1, Arr(Len(h1)))
+  ELSE LET h1 == Append(h, ArrC(ListSortItems(s))) IN LRes(h1, Arr(Len(h1)))
+-----------------------------------------------------------------------------
+(* Part 2b: statements over named arrays a, b, c (containers 1, 2, 3): a call *)
+(* expression with calls nested in its arguments, or an index store.         *)
+ArrNames == <<"a", "b", "c">>
+Id(n) == CASE n = "a" -> 1 [] n = "b" -> 2 [] n = "c" -> 3
+Named == {1, 2, 3}
+
+-----------------------------------------------------------------------------
+(* expressions and statements *)
+Lit(v) == [e |-> "lit", v |-> v]
+Call(m, a, args) == [e |-> "call", m |-> m, a |-> a, args |-> args]
+Get(a, i) == [e |-> "get", a |-> a, i |-> i]
+SExpr(x) == [op |-> "expr", x |-> x]                       \* print the value of x
+SSet(a, i, v) == [op |-> "set", a |-> a, i |-> i, v |-> v]  \* a[i] = v
+
+(* list state: the heap, which named arrays have been stored inside an array *)
+(* (aliased) and which of those changed their length afterwards (stale: what *)
+(* the copy shows is C09's alias question, not compared here)                *)
+LS(h, al, stl) == [h |-> h, aliased |-> al, stale |-> stl]
+ER(s, res, status) == [s |-> s, res |-> res, status |-> status]
+LenChanged(s, id, h2) ==
+  IF Len(h2[id].items) # Len(s.h[id].items) /\ id \in s.aliased THEN s.stale \cup {id} ELSE s.stale
+
+\* apply method m of array id with argument arg (Null when it takes none)
+Method(s, m, id, arg, dev) ==
+  LET fin(r) == IF r.status # "ok" THEN ER(s, Null, r.status)
+                ELSE ER(LS(r.h, s.aliased, LenChanged(s, id, r.h)), r.res, "ok")
+  IN
+  CASE m = "push" ->
+         IF arg.t = "arr" /\ arg.id = id THEN
+            \* the array inside itself: a cycle (C17) in the intended semantics; in the pinned code a
+            \* copy of the header, shown as a copy or as <circular reference> depending on the allocation
+            IF dev THEN ER(LS(ListPush(s.h, id, Wild).h, s.aliased, s.stale), Arr(id), "ok") ELSE ER(s, Null, "open")
+         ELSE LET s1 == IF arg.t = "arr" /\ arg.id \in Named THEN [s EXCEPT !.aliased = @ \cup {arg.id}] ELSE s
+                  r == ListPush(s1.h, id, arg)
+              IN ER(LS(r.h, s1.aliased, LenChanged(s1, id, r.h)), r.res, "ok")
+    [] m = "pop" -> fin(ListPop(s.h, id))
+    [] m = "popfirst" -> fin(ListPopFirst(s.h, id))
+    [] m = "length" -> fin(ListLength(s.h, id))
+    [] m = "contains" -> fin(ListContains(s.h, id, arg))
+    [] m = "sort" ->
+         IF \E i \in 1..Len(s.h[id].items) : s.h[id].items[i].t = "wild" THEN ER(s, Null, "wild")
+         ELSE LET r == ListSort(s.h, id) IN
+              IF r.status = "open" /\ dev THEN ER(s, Null, "wild") ELSE fin(r)
+
+\* intended semantics: every call acts on the array it was invoked on
+RECURSIVE Eval(_, _)
+Eval(s, e) ==
+  CASE e.e = "lit" -> ER(s, e.v, "ok")
+    [] e.e = "get" ->
+         LET n == Len(s.h[Id(e.a)].items) IN
+         IF Norm(n, e.i) >= n THEN ER(s, Null, "open")        \* a read past the end: C09's
+         ELSE LET r == ListGet(s.h, Id(e.a), e.i) IN ER(s, r.res, r.status)
+    [] e.e = "call" ->
+         IF e.args = <<>> THEN Method(s, e.m, Id(e.a), Null, FALSE)
+         ELSE LET ra == Eval(s, e.args[1]) IN
+              IF ra.status # "ok" THEN ra ELSE Method(ra.s, e.m, Id(e.a), ra.res, FALSE)
+
+\* deviation shared-receiver: last[m] = the array on which method m was looked up last
+RECURSIVE EvalD(_, _, _)
+EvalD(s, e, last) ==
+  CASE e.e = "lit" -> [r |-> ER(s, e.v, "ok"), last |-> last]
+    [] e.e = "get" ->
+         LET n == Len(s.h[Id(e.a)].items) IN
+         IF Norm(n, e.i) >= n THEN [r |-> ER(s, Null, "wild"), last |-> last]
+         ELSE LET r == ListGet(s.h, Id(e.a), e.i) IN [r |-> ER(s, r.res, r.status), last |-> last]
+    [] e.e = "call" ->
+         LET l1 == [last EXCEPT ![e.m] = Id(e.a)] IN
+         IF e.args = <<>> THEN [r |-> Method(s, e.m, l1[e.m], Null, TRUE), last |-> l1]
+         ELSE LET ra == EvalD(s, e.args[1], l1) IN
+              IF ra.r.status # "ok" THEN ra
+              ELSE [r |-> Method(ra.r.s, e.m, ra.last[e.m], ra.r.res, TRUE), last |-> ra.last]
+Last0 == [m \in {"push", "pop", "popfirst", "length", "contains", "sort"} |-> 0]
+
+Exec(s, st, dev) ==
+  IF st.op = "set" THEN
+     LET r == ListSet(s.h, Id(st.a), st.i, st.v) IN
+     IF r.status # "ok" THEN ER(s, Null, r.status)
+     ELSE ER(LS(r.h, s.aliased, LenChanged(s, Id(st.a), r.h)), Null, "ok")
+  ELSE IF dev THEN EvalD(s, st.x, Last0).r ELSE Eval(s, st.x)
+
+-----------------------------------------------------------------------------
+(* what is observed: the tree of a value; the copy of an array whose length  *)
+(* changed after it was stored is not constrained                            *)
+RECURSIVE LTree(_, _, _, _)
+LTree(s, v, top, fuel) ==
+  IF fuel = 0 THEN Wild
+  ELSE IF v.t = "arr" THEN
+     IF ~top /\ v.id \in s.stale THEN Wild
+     ELSE LET items == s.h[v.id].items IN [t |-> "arr", items |-> [i \in 1..Len(items) |-> LTree(s, items[i], FALSE, fuel - 1)]]
+  ELSE v
+\* the result of push is the receiver itself; an array returned by pop / popfirst / a[i] is a stored copy
+ResIsReceiver(st) == st.op = "expr" /\ st.x.e = "call" /\ st.x.m = "push"
+Expect(s, st, res, status, n) ==
+  IF status # "ok" THEN [st |-> status]
+  ELSE [st |-> "ok", res |-> LTree(s, res, ResIsReceiver(st), 5),
+        arrs |-> [k \in 1..n |-> LTree(s, Arr(k), TRUE, 5)],
+        lens |-> [k \in 1..n |-> Len(s.h[k].items)]]
 -----------------------------------------------------------------------------
 (* Part 3: the heap of the pinned implementation (deviations `alias-length`  *)
 (* and `read-pads-array`).  An array VALUE is a slice header                 *)
